@@ -64,6 +64,54 @@ def build(pkg="mc_core", release=False):
     return exe, time.time() - t0
 
 
+def build_seq():
+    """The sequential build (consts::PARALLEL == false): rsync the working tree's crates to
+    .build/seq_src, empty every `default = ["parallel"]`, cargo build harness_seq/mc_seq against the
+    copy (incremental: rsync keeps mtimes).  Returns (exe, note)."""
+    src = os.path.join(BUILD, "seq_src")
+    os.makedirs(src, exist_ok=True)
+    subprocess.run(["rsync", "-a", "--delete", "--exclude", "target", "--exclude", ".git", "--exclude", "/tests", "--exclude", "/doc", "--exclude", "/assets",
+                    REPO + "/", src + "/"], check=True)
+    n = 0
+    for crate in ("erg_common", "erg_parser", "erg_compiler"):
+        man = os.path.join(src, "crates", crate, "Cargo.toml")
+        st = os.stat(man)
+        text = open(man).read()
+        new = text.replace('default = ["parallel"]', "default = []")
+        if new != text:
+            n += 1
+            tmp = man + ".tmp"
+            with open(tmp, "w") as f:
+                f.write(new)
+            os.replace(tmp, man)
+            os.utime(man, (st.st_atime, st.st_mtime))
+    hs = os.path.join(VERIF, "harness_seq")
+    lock = os.path.join(hs, "Cargo.lock")
+    if not os.path.exists(lock):
+        shutil.copy(os.path.join(REPO, "Cargo.lock"), lock)
+    p = subprocess.run(["cargo", "build", "--offline", "-q", "-p", "mc_seq"], cwd=hs, env=cargo_env(), stdout=subprocess.PIPE, stderr=subprocess.STDOUT, text=True)
+    if p.returncode != 0:
+        sys.stderr.write(p.stdout[-4000:])
+        raise MachineryError("build of the sequential variant (mc_seq) failed")
+    exe = os.path.join(BUILD, "target_seq", "debug", "mc_seq")
+    return exe, f"built from a copy of the working tree with default=[\"parallel\"] emptied in {n} manifests"
+
+
+def run_seq(exe, entry, tag, mode="compile"):
+    base = os.path.join(BUILD, "sched", tag)
+    os.makedirs(base, exist_ok=True)
+    out = os.path.join(base, "seq.json")
+    if os.path.exists(out):
+        os.remove(out)
+    env = dict(os.environ)
+    env["ERG_PATH"] = os.path.join(BUILD, "erg_path")
+    p = subprocess.run([exe, entry, out, mode], env=env, stdout=subprocess.PIPE, stderr=subprocess.PIPE, text=True, timeout=120)
+    if not os.path.exists(out):
+        return {"status": "panic", "fatal": None, "panic": p.stderr[-300:], "threads": []}
+    with open(out) as f:
+        return json.load(f)
+
+
 def stage_erg_path():
     """Stage crates/erg_compiler/lib of the working tree as ERG_PATH so that edits to the
     runtime library / declaration files are seen (the ~/.erg copy is made at build time)."""
@@ -316,12 +364,12 @@ def _pool(nworkers, jobs, runner):
         return list(ex.map(runner, jobs))
 
 
-def compile_batch(items, tag, chunk=60, per_item_ms=20000):
+def compile_batch(items, tag, chunk=60, per_item_ms=20000, pkg="mc_core", engine="compile-batch"):
     """items: list of dicts for `mc_core compile-batch` (ids must be unique and file-name safe).
     Runs worker processes (1 thread each; a fresh process per chunk because the compiler leaks
     ~7 MB per compile).  A worker that dies marks the first item without a result as
     status 'abort' / 'hang' and the rest of its chunk is re-run.  Returns {id: result}."""
-    exe, _ = build("mc_core")
+    exe, _ = build(pkg)  # pkg/engine: any harness package speaking the same <in> <out> <workdir> JSONL protocol
     stage_erg_path()
     base = os.path.join(BUILD, "cb", tag)
     shutil.rmtree(base, ignore_errors=True)
@@ -342,7 +390,7 @@ def compile_batch(items, tag, chunk=60, per_item_ms=20000):
             env = dict(os.environ)
             env["ERG_PATH"] = os.path.join(BUILD, "erg_path")
             env.update({"MC_THREADS": "1", "MC_CHUNK": "1000000", "MC_ITEM_CAP_MS": str(per_item_ms)})
-            p = subprocess.run([exe, "compile-batch", inp, outp, os.path.join(base, "w")], env=env,
+            p = subprocess.run([exe, engine, inp, outp, os.path.join(base, "w")], env=env,
                                stdout=subprocess.PIPE, stderr=subprocess.PIPE, text=True)
             got = {}
             if os.path.exists(outp):
